@@ -457,6 +457,14 @@ def step (st : Api.State) (line : String) : Api.State × String :=
       let key ← pInt c
       let (st', out) := Api.step cat st (.construct key)
       pure (st', match out with | .vals r => rVals r | _ => "bad-out")
+    | "api.constructwith" =>
+      let key ← pInt c; let vals ← pValsToEnd c #[]
+      match findSpec key with
+      | some spec => pure (st, rVals (Api.constructWith spec vals))
+      | none => throw "unknown method key"
+    | "api.constructprops" =>
+      let vals ← pValsToEnd c #[]
+      pure (st, rVals (Api.constructProps cat Generated.propsRules vals))
     | "ping" => pure (st, "pong")
     | _ => throw "unknown op"
   match (run.run 0) with
